@@ -6,8 +6,8 @@
 2. TLC-generated orders of {build track, enqueue, change rate, callback} run on the real library: the
    add-track call is split at the ctl.reserved yield point; probe effects record the rate they were
    told and the dt of every process call (top-level, nested, send and spatial tracks).
-3. Durations measured in device time (finite sound, clock ticks, delay echo) at 8/10/20/40 Hz and across a
-   mid-stream change are validated by TLC against their nominal seconds (T_C16.tla)."""
+3. Durations measured in device time (finite sound, clock ticks, delay echo at 8/10/20/40 Hz; the rise time of
+   a 10 Hz low-pass filter at 400/1000/2000 Hz) at one rate and across a mid-stream change are validated by TLC against their nominal seconds (T_C16.tla)."""
 import os
 import random
 
@@ -17,8 +17,8 @@ PROP = "C16"
 MANIFEST = dict(
     level="model_checking", design_ref="DESIGN.md 8 (C16), 7 (SampleRate)",
     technique="TLA+ model of rate propagation (TLC, all orders of build/enqueue/change/callback) + TLC orders replayed on the real library with the add-track call split at a cfg(kira_verif) yield point + TLC trace validation against P_C16; one known finding matched by signature",
-    text="TLC explores every order of building tracks (rate load and enqueue as separate steps), changing the device rate and running callbacks, and checks that every effect processes with the rate in force (D12, a track not yet in the arena during a change, is the one named exception). The generated orders run on real top-level, nested, send and spatial tracks with rate-recording probe effects. Sound duration, clock speed and delay time are measured in device time at several rates and across a mid-stream change and compared with their nominal seconds.",
-    note="Rates 8-40 Hz keep every duration an exact number of milliseconds; audio-rate behaviour of the DSP effects (filter frequencies in hertz) is numeric and belongs to C13/C14. Tween durations scale through the same dt as clocks and are not measured separately.")
+    text="TLC explores every order of building tracks (rate load and enqueue as separate steps), changing the device rate and running callbacks, and checks that every effect processes with the rate in force (D12, a track not yet in the arena during a change, is the one named exception). The generated orders run on real top-level, nested, send and spatial tracks with rate-recording probe effects. Sound duration, clock speed, delay time and the rise time of a low-pass filter (a cutoff in hertz) are measured in device time at several rates and across a mid-stream change and compared with their nominal seconds.",
+    note="Rates 8-40 Hz keep every duration an exact number of milliseconds; of the DSP effects' frequencies in hertz only the filter cutoff is measured (step response). Tween durations scale through the same dt as clocks and are not measured separately.")
 
 
 def write_cfg(name, text):
@@ -72,6 +72,11 @@ def run(tier):
         if what != "echo":
             for r1, r2 in ((8, 20), (40, 10), (10, 8)):
                 scen.append({"mode": "measure", "what": what, "rates": [r1, r2], "switch_ms": 1000, "src": "grid-change"})
+    # hertz: the rise time of a 10 Hz low-pass filter, at one rate and across a change before the step
+    for r in (400, 1000, 2000):
+        scen.append({"mode": "measure", "what": "filter", "rates": [r], "src": "grid"})
+    for r1, r2 in ((400, 2000), (2000, 400), (1000, 400), (400, 1000)):
+        scen.append({"mode": "measure", "what": "filter", "rates": [r1, r2], "switch_ms": 100, "src": "grid-change"})
     sp, tp = os.path.join(OUT, "c16", "scen.ndjson"), os.path.join(OUT, "c16", "trace.ndjson")
     write_ndjson(sp, scen)
     run_kv("c16", sp, tp)
